@@ -15,6 +15,7 @@ type Clause struct {
 }
 
 type LoopAnn struct {
+	UnfoldInit []*SExp // unfold instances needed only to establish the invariant on entry
 	Inv       []*Clause
 	Unfold    []*SExp
 	Decreases *SExp
@@ -45,6 +46,7 @@ type Contract struct {
 	Asserts   map[string][]*Clause // assert-at labels
 	Unfolds   []*SExp              // exit-time unfold instances
 	Tables    []*TableAx
+	Expand    map[string]bool // defined spec functions expanded by the generator
 	FreshFields []*SExp
 	Returns   [][2]*SExp // (returns <result leaf> <term>): exact definition of a result leaf
 	Int       bool
@@ -108,6 +110,12 @@ func (p *Prog) loadContractFile(path, pkg string) error {
 			p.ContractOrder = append(p.ContractOrder, c.Name)
 		case "defmacro":
 			p.addMacro(x)
+		case "ghost":
+			srt, err := p.parseSort(x.List[2])
+			if err != nil {
+				return fmt.Errorf("%s: ghost %s: %v", path, x.List[1].Atom, err)
+			}
+			p.GhostDecls[x.List[1].Atom] = srt
 		case "lemma":
 			p.Lemmas = append(p.Lemmas, &LemmaDecl{X: x, Pkg: pkg, File: path})
 		default:
@@ -140,7 +148,7 @@ func (p *Prog) parseContract(x *SExp, pkg string) (*Contract, error) {
 		// qualify: "(*SM3).update" -> "(*sm3.SM3).update" ; "Sm3Sum" -> "sm3.Sm3Sum"
 		name = qualify(pkg, name)
 	}
-	c := &Contract{Name: name, Pkg: pkg, Loops: map[int]*LoopAnn{}, Asserts: map[string][]*Clause{}}
+	c := &Contract{Name: name, Pkg: pkg, Loops: map[int]*LoopAnn{}, Asserts: map[string][]*Clause{}, Expand: map[string]bool{}}
 	cnt := map[string]int{}
 	lab := func(kind string, l []*SExp) *Clause {
 		if len(l) == 2 && !l[0].IsL {
@@ -197,6 +205,10 @@ func (p *Prog) parseContract(x *SExp, pkg string) (*Contract, error) {
 			}
 		case "apply":
 			c.Lemmas = append(c.Lemmas, args...)
+		case "expand":
+			for _, a := range args {
+				c.Expand[a.Atom] = true
+			}
 		case "table":
 			ta := &TableAx{Table: "tbl!" + args[0].Atom, Var: args[1].Atom, Expr: args[2]}
 			for _, u := range args[3:] {
@@ -226,6 +238,8 @@ func (p *Prog) parseContract(x *SExp, pkg string) (*Contract, error) {
 					}
 				case "unfold":
 					la.Unfold = append(la.Unfold, la2...)
+				case "unfold-init":
+					la.UnfoldInit = append(la.UnfoldInit, la2...)
 				case "decreases":
 					la.Decreases = la2[0]
 				case "apply":
@@ -543,6 +557,9 @@ func (p *Prog) elab(fx *Fx, x *SExp, env *Env) Val {
 			case "zero_extend":
 				n, _ := strconv.Atoi(hd.List[2].Atom)
 				return tv(ZeroExt(a, a.S.W+n))
+			case "rotate_left":
+				n, _ := strconv.Atoi(hd.List[2].Atom)
+				return tv(RotL(a, n))
 			case "sign_extend":
 				n, _ := strconv.Atoi(hd.List[2].Atom)
 				return tv(SignExt(a, a.S.W+n))
@@ -643,6 +660,8 @@ func (p *Prog) elab(fx *Fx, x *SExp, env *Env) Val {
 		return tv(g)
 	case "global":
 		return p.globalByName(env.st, args[0].Atom)
+	case "heap":
+		return tv(env.st.H[kindByName(args[0].Atom)])
 	case "bv":
 		n, ok := new(big.Int).SetString(args[0].Atom, 0)
 		w, err := strconv.Atoi(args[1].Atom)
@@ -793,6 +812,15 @@ func (p *Prog) elab(fx *Fx, x *SExp, env *Env) Val {
 		ts := make([]*Term, len(args))
 		for i := range args {
 			ts[i] = coerceTo(T(i), f.Args[i])
+		}
+		if fx != nil && fx.C != nil && fx.C.Expand[h] && f.Body != nil && !p.Recs[h] {
+			// the contract asks for this defined spec function to be expanded by the generator's own
+			// term constructors, so that code and spec meet in one normal form
+			vars := map[string]Val{}
+			for i, pn := range f.Params {
+				vars[pn] = tv(ts[i])
+			}
+			return p.elab(fx, f.Body, &Env{fx: fx, st: env.st, old: env.old, vars: vars})
 		}
 		if fx != nil {
 			fx.UsedSpec[h] = true
@@ -985,6 +1013,14 @@ func (p *Prog) unfoldInstance(fx *Fx, x *SExp, env *Env) *Term {
 		vars[pn] = tv(lhs.Args[i])
 	}
 	rhs := p.elabT(fx, f.Body, env.with(vars))
+	// resolve the recursion's case split now when the path condition decides it (keeps the instance small)
+	if rhs.Op == "ite" && fx != nil && env.st != nil && env.st.PC != nil {
+		if fx.provable(env.st, Not(rhs.Args[0])) {
+			rhs = rhs.Args[2]
+		} else if fx.provable(env.st, rhs.Args[0]) {
+			rhs = rhs.Args[1]
+		}
+	}
 	return Eq(lhs, coerceTo(rhs, lhs.S))
 }
 
